@@ -1,0 +1,59 @@
+//go:build verif
+
+package transport
+
+import (
+	"crypto/rand"
+)
+
+// This file exists only under the "verif" build tag. It exposes read-only views
+// of internal state (and the cookie-key rotation step) to verification
+// harnesses; it changes no behaviour.
+
+// VerifTables returns the number of tracked handshakes and sessions.
+func (s *Server) VerifTables() (handshakes, sessions int) {
+	s.m.RLock()
+	defer s.m.RUnlock()
+	return len(s.handshakes), len(s.sessions)
+}
+
+// VerifRotateCookieKey performs the cookie-key rotation step of the Serve ticker.
+func (s *Server) VerifRotateCookieKey() {
+	s.cookieLock.Lock()
+	defer s.cookieLock.Unlock()
+	if _, err := rand.Read(s.cookieKey[:]); err != nil {
+		panic(err)
+	}
+}
+
+// VerifSessionView is a snapshot of a session's identifiers, keys and peer address.
+type VerifSessionView struct {
+	SessionID [SessionIDLen]byte
+	C2S, S2C  [KeyLen]byte
+	Remote    string
+	Count     uint64
+	Closed    bool
+	Hidden    bool
+}
+
+func (ss *SessionState) verifView() VerifSessionView {
+	ss.m.Lock()
+	defer ss.m.Unlock()
+	v := VerifSessionView{SessionID: ss.sessionID, C2S: ss.clientToServerKey, S2C: ss.serverToClientKey,
+		Count: ss.count, Closed: ss.handleState == closed, Hidden: ss.isHiddenHS}
+	if ss.remoteAddr != nil {
+		v.Remote = ss.remoteAddr.String()
+	}
+	return v
+}
+
+// VerifSession returns the session view of an accepted connection.
+func (c *Handle) VerifSession() VerifSessionView { return c.ss.verifView() }
+
+// VerifSession returns the session view of a client after a successful handshake.
+func (c *Client) VerifSession() (VerifSessionView, bool) {
+	if c.state.Load() != clientStateOpen || c.ss == nil {
+		return VerifSessionView{}, false
+	}
+	return c.ss.verifView(), true
+}
